@@ -98,66 +98,21 @@ def _assigned_counts(fn):
     return cnt
 
 
-def canon(fn, where):
-    """FunctionDef -> nested tuple of canonical effect strings"""
-    cnt = _assigned_counts(fn)
-
-    def sub(node, env):
-        new = _Subst(env).visit(copy.deepcopy(node))
-        new = _NodeDof().visit(ast.fix_missing_locations(new))
-        return ast.unparse(ast.fix_missing_locations(new))
-
-    def block(stmts, env, depth):
-        out = []
-        for s in stmts:
-            if isinstance(s, ast.Expr):
-                if isinstance(s.value, ast.Constant):
-                    continue
-                out.append(("do", sub(s.value, env)))
-            elif isinstance(s, ast.Assign):
-                val = _Subst(env).visit(copy.deepcopy(s.value))
-                for t in s.targets:
-                    if isinstance(t, ast.Name):
-                        if cnt.get(t.id, 0) == 1:
-                            env[t.id] = val
-                        else:
-                            out.append(("set", t.id, ast.unparse(val)))
-                    elif isinstance(t, (ast.Tuple, ast.List)) and all(isinstance(e, ast.Name) for e in t.elts):
-                        for k, e in enumerate(t.elts):
-                            item = ast.Subscript(value=copy.deepcopy(val), slice=ast.Constant(k), ctx=ast.Load())
-                            if cnt.get(e.id, 0) == 1:
-                                env[e.id] = item
-                            else:
-                                out.append(("set", e.id, ast.unparse(ast.fix_missing_locations(item))))
-                    elif isinstance(t, ast.Subscript):
-                        out.append(("store", sub(t, env), ast.unparse(val)))
-                    else:
-                        raise TranslateError("%s: assignment target %s" % (where, ast.unparse(t)))
-            elif isinstance(s, ast.AugAssign):
-                out.append(("aug", sub(s.target, env), type(s.op).__name__, sub(s.value, env)))
-            elif isinstance(s, ast.Return):
-                out.append(("return", "" if s.value is None else sub(s.value, env)))
-            elif isinstance(s, ast.Assert):
-                continue                       # checks only
-            elif isinstance(s, ast.For):
-                if not isinstance(s.target, ast.Name) or s.orelse:
-                    raise TranslateError("%s: loop shape" % where)
-                e2 = dict(env)
-                e2[s.target.id] = ast.Name(id="_L%d" % depth, ctx=ast.Load())
-                out.append(("for", "_L%d" % depth, sub(s.iter, env), tuple(block(s.body, e2, depth + 1))))
-            elif isinstance(s, ast.If):
-                out.append(("if", sub(s.test, env), tuple(block(s.body, dict(env), depth)), tuple(block(s.orelse, dict(env), depth))))
-            elif isinstance(s, ast.Pass):
-                continue
-            else:
-                raise TranslateError("%s: statement %s" % (where, type(s).__name__))
-        return out
-    return tuple(block(fn.body, {}, 0))
+def canon(fn, where, module=None, cls=None):
+    """FunctionDef -> canonical effect tree (translator/peval.py: locals inlined, helpers and local
+    closures inlined at the call, decided branches removed, loop variables renamed by depth), with
+    the node/component tables of the local dofs in normal form (_NodeDof)."""
+    from translator.peval import PEval
+    pe = PEval(module or ast.Module(body=[], type_ignores=[]), cls, where=where, post=_NodeDof())
+    ret, eff = pe.evaluate(fn, is_method=bool(fn.args.args and fn.args.args[0].arg == "self"))
+    return (tuple(eff), ret)
 
 
-def _ref(src):
+def _ref(src, module=None, cls=None):
+    """the reference body, reduced in the SAME module / class context as the source (so that
+    helpers are inlined identically on both sides)"""
     fn = ast.parse(textwrap.dedent(src)).body[0]
-    return canon(fn, "reference")
+    return canon(fn, "reference", module, cls)
 
 
 def _cls(mod, name, path):
@@ -174,11 +129,11 @@ def _fn(node, name, path):
     raise TranslateError("%s: function %s not found" % (path, name))
 
 
-def _match(fn, refs, where):
+def _match(fn, refs, where, module=None, cls=None):
     """-> key of the first reference whose effect tree equals the function's"""
-    got = canon(fn, where)
+    got = canon(fn, where, module, cls)
     for key, src in refs:
-        if got == _ref(src):
+        if got == _ref(src, module, cls):
             return key
     raise TranslateError("%s: the body is none of the %d shapes the model was written against; canonical effects: %s" % (where, len(refs), repr(got)[:700]))
 
@@ -303,15 +258,15 @@ def translate(repo):
     res = {}
     bl = _cls(mod, "BiLinearForm", FORMS)
     ll = _cls(mod, "LinearForm", FORMS)
-    _match(_fn(bl, "Integrate_e", FORMS), [("ok", REF_BIL_INTEGRATE)], FORMS + ":BiLinearForm.Integrate_e")
-    res["lin_store"] = _match(_fn(ll, "Integrate_e", FORMS), REF_LIN_INTEGRATE, FORMS + ":LinearForm.Integrate_e")
-    res["bil_rows"], res["bil_cols"] = _match(_fn(bl, "Assemble", FORMS), _asm_refs("(Ndof, Ndof)"), FORMS + ":BiLinearForm.Assemble")
-    res["lin_rows"], res["lin_cols"] = _match(_fn(ll, "Assemble", FORMS), _asm_refs("(Ndof, 1)"), FORMS + ":LinearForm.Assemble")
+    _match(_fn(bl, "Integrate_e", FORMS), [("ok", REF_BIL_INTEGRATE)], FORMS + ":BiLinearForm.Integrate_e", mod, bl)
+    res["lin_store"] = _match(_fn(ll, "Integrate_e", FORMS), REF_LIN_INTEGRATE, FORMS + ":LinearForm.Integrate_e", mod, ll)
+    res["bil_rows"], res["bil_cols"] = _match(_fn(bl, "Assemble", FORMS), _asm_refs("(Ndof, Ndof)"), FORMS + ":BiLinearForm.Assemble", mod, bl)
+    res["lin_rows"], res["lin_cols"] = _match(_fn(ll, "Assemble", FORMS), _asm_refs("(Ndof, 1)"), FORMS + ":LinearForm.Assemble", mod, ll)
     fmod = ast.parse(open(os.path.join(repo, FIELD)).read())
     fc = _cls(fmod, "Field", FIELD)
-    res["call_uses_dof"] = _match(_fn(fc, "__call__", FIELD), REF_CALL, FIELD + ":Field.__call__")
-    _match(_fn(fc, "grad", FIELD), REF_GRAD, FIELD + ":Field.grad")
-    _match(_fn(fmod, "Sym_Grad", FIELD), REF_SYMGRAD, FIELD + ":Sym_Grad")
+    res["call_uses_dof"] = _match(_fn(fc, "__call__", FIELD), REF_CALL, FIELD + ":Field.__call__", fmod, fc)
+    _match(_fn(fc, "grad", FIELD), REF_GRAD, FIELD + ":Field.grad", fmod, fc)
+    _match(_fn(fmod, "Sym_Grad", FIELD), REF_SYMGRAD, FIELD + ":Sym_Grad", fmod, None)
     return res
 
 
